@@ -100,6 +100,13 @@ type ReqSpec struct {
 	Cursor bool `json:"cursor,omitempty"`
 	// RawCursor: a literal (possibly forged) cursor token handed to the api helper
 	RawCursor string `json:"raw_cursor,omitempty"`
+	// Forged: RawCursor carries a signature that does not verify; it must be refused
+	Forged bool `json:"forged,omitempty"`
+	// Proto: "" = straight into the kernel queue, "http" / "grpc" = through that front end.
+	// Kind "RawHTTP": State = method, Id = path, Cron = raw query, Headers, Data = raw body.
+	// Kind "RawGRPC": Id = method name, Data = JSON of the request message (protojson), with
+	// "__nil": ["field", ...] naming sub-messages to leave nil.
+	Proto string `json:"proto,omitempty"`
 }
 
 // Step is one action of the simulator.
